@@ -36,6 +36,10 @@ pub enum Noise {
     Export(usize),
     /// key_identifier() of an issuer certificate
     KeyId(usize),
+    /// CA key roll-over: a second CA with the same name and parameters as the issuer of this
+    /// (observed) Issue operation but under another key of the same algorithm issues the very
+    /// same request — byte-identical to-be-signed data under two different keys
+    Rollover(Op),
 }
 
 #[derive(Clone, Debug, PartialEq, Eq, Serialize, Deserialize)]
@@ -70,7 +74,11 @@ fn unstore(op: &mut Op) {
 
 pub fn gen_world_and_ops(r: &mut Rng, crypto: bool, n_obs: usize) -> (Vec<KeySlotSpec>, Vec<Op>, Vec<Op>) {
     let cfg = GenCfg { allow_remote: true, allow_local: crypto, max_keys: 3, max_ops: 0 };
-    let slots = gen_slots(r, &cfg);
+    let mut slots = gen_slots(r, &cfg);
+    // now and then two key slots of the same algorithm (what a key roll-over needs)
+    if slots.len() >= 2 && r.chance(1, 3) {
+        slots[1] = KeySlotSpec { spec: crate::keys::KeySpec::draw(r, slots[0].spec.alg), custody: slots[0].custody.clone() };
+    }
     // setup: a root and, half of the time, an intermediate (both stored)
     let all = gen_ops(r, slots.len(), 12, crypto);
     let mut setup: Vec<Op> = Vec::new();
@@ -135,6 +143,11 @@ impl Engine for PurityHist {
             for _ in 0..r.range(0, 2) {
                 let near = perturb_op(op, &mut r);
                 history.push(HStep::Noise(if r.chance(1, 4) { Noise::FailingGen(near, r.below(10) as u8) } else { Noise::Gen(near) }));
+            }
+        }
+        for op in observed.iter() {
+            if matches!(op, Op::Issue { .. }) && r.chance(1, 2) {
+                history.push(HStep::Noise(Noise::Rollover(op.clone())));
             }
         }
         while history.len() < len {
@@ -553,6 +566,7 @@ fn noise_kind(n: &Noise) -> &'static str {
         Noise::DebugFmt { .. } => "debug-fmt",
         Noise::Export(_) => "export",
         Noise::KeyId(_) => "key-id",
+        Noise::Rollover(_) => "rollover",
     }
 }
 
@@ -754,6 +768,23 @@ fn noise(w: &mut World, n: &Noise) -> String {
         Noise::KeyId(i) => {
             let Some(iss) = w.issuers.get(*i) else { return "skip".into() };
             format!("ok {}", simcore::sha256::short(&iss.cert.key_identifier()))
+        }
+        Noise::Rollover(op) => {
+            let Op::Issue { issuer, subject, recipe, .. } = op else { return "skip".into() };
+            let (Some(iss), Some(sk)) = (w.issuers.get(*issuer), w.keys.get(*subject)) else { return "skip".into() };
+            let k1 = iss.key;
+            let alg = w.keys[k1].sim.alg;
+            let Some(k2) = (0..w.keys.len()).find(|&k| k != k1 && w.keys[k].sim.alg == alg && w.keys[k].sim.raw_pub != w.keys[k1].sim.raw_pub) else {
+                return "skip:no second key of that algorithm".into();
+            };
+            let ca2 = match iss.recipe.build().self_signed(&w.keys[k2].kp) {
+                Ok(c) => c,
+                Err(e) => return format!("err:{}", crate::world::err_name(&e)),
+            };
+            match recipe.build().signed_by(&sk.kp, &ca2, &w.keys[k2].kp) {
+                Ok(c) => format!("ok tbs={}", simcore::der::split_signed(c.der()).map(|s| simcore::sha256::short(s.tbs.raw)).unwrap_or_default()),
+                Err(e) => format!("err:{}", crate::world::err_name(&e)),
+            }
         }
     }
 }
